@@ -12,7 +12,7 @@ variable {F : FlatDesign}
 
 /-- the clock port and the clock ports of the flattened instances are declared one bit wide -/
 def ClkDeclared (F : FlatDesign) (info : String → Option SigInfo) : Prop :=
-  info F.clk = some { width := 1 } ∧ ∀ R, R ∈ F.regs → info (R.pfx ++ "clk") = some { width := 1 }
+  ∀ R, R ∈ F.regs → info F.clk = some { width := 1 } ∧ info (R.pfx ++ "clk") = some { width := 1 }
 
 theorem nbaLid_regBody (p : String) (hasR hasE : Bool) (rv : Nat) : NbaLid (regBodyP p hasR hasE rv) := by
   cases hasR <;> cases hasE <;> simp [regBodyP, NbaLid]
@@ -56,8 +56,8 @@ theorem cycOK (hF : F.WF) (as : List (LHS × Expr)) (hp : as.Perm F.assigns) (in
       refine ⟨R, hR, ?_⟩
       simp [RegI.tail]
     have hset := hS _ (hp.mem_iff.mpr hmemT)
-    have hw : widthOf r (R.pfx ++ "clk") = 1 := by simp [widthOf, hinfo, hclk.2 R hR]
-    have hk : Known r F.clk 1 b := ⟨by rw [hinfo]; exact hclk.1, hval, by omega⟩
+    have hw : widthOf r (R.pfx ++ "clk") = 1 := by simp [widthOf, hinfo, (hclk R hR).2]
+    have hk : Known r F.clk 1 b := ⟨by rw [hinfo]; exact (hclk R hR).1, hval, by omega⟩
     simp only [tgt, LHS.name] at hset
     rw [hset, hw, inline_buf 1 hk]
     simp [Leaf.buf, Nat.mod_eq_of_lt (show b < 2 ^ 1 by omega)]
@@ -71,31 +71,46 @@ def shipOp (F : FlatDesign) (m : Sim) : Net.Op → Sim
 /-- what the theorems need of a shipped simulator state: it runs the flattened text with the design's clock, declares
     the clocks one bit wide, both clock levels are high (as after `mkSim` and after every cycle) -/
 structure ShipInv (F : FlatDesign) (as : List (LHS × Expr)) (m : Sim) : Prop where
-  flat : m.flat = F.flatOf as
+  fassigns : m.flat.assigns = as
+  fprocs : m.flat.procs = F.regs.map RegI.proc
   clk : m.clk = F.clk
   declared : F.Declared m.st.rd
   clkdecl : F.ClkDeclared m.st.rd.info
   high : m.st.rd.val F.clk = ⟨1, 1, true⟩
   ihigh : ∀ R, R ∈ F.regs → m.st.rd.val (R.pfx ++ "clk") = ⟨1, 1, true⟩
 
+theorem CycOK_congr {f g : V.Flat} {c : String} {t : List (LHS × Expr)} {i : String → Option SigInfo}
+    (ha : g.assigns = f.assigns) (hp : g.procs = f.procs) (h : CycOK f c t i) : CycOK g c t i :=
+  ⟨ha ▸ h.perm, h.acyc, ha ▸ h.clk_undriven, hp ▸ h.procs, by rw [ha, hp]; exact h.follows⟩
+
+theorem cycleA_congr {f g : V.Flat} (ha : g.assigns = f.assigns) (hp : g.procs = f.procs) (r : Rd) :
+    cycleA g r = cycleA f r := by
+  unfold cycleA; rw [ha, hp]
+
+theorem ShipInv.cyc (hF : F.WF) {as : List (LHS × Expr)} (hp : as.Perm F.assigns) {m : Sim} (h : ShipInv F as m) :
+    CycOK m.flat m.clk F.topo m.st.rd.info := by
+  rw [h.clk]
+  exact CycOK_congr (f := F.flatOf as) h.fassigns h.fprocs (cycOK hF as hp _ h.clkdecl)
+
 theorem ship_cycle (hF : F.WF) (as : List (LHS × Expr)) (hp : as.Perm F.assigns) (m : Sim) (h : ShipInv F as m) :
     m.cycle.st.rd = cycleA (F.flatOf as) m.st.rd ∧ m.cycle.errors = m.errors ∧ ShipInv F as m.cycle := by
-  have hC : CycOK m.flat m.clk F.topo m.st.rd.info := by rw [h.flat, h.clk]; exact cycOK hF as hp _ h.clkdecl
+  have hC : CycOK m.flat m.clk F.topo m.st.rd.info := h.cyc hF hp
   have hl : ∀ a, a ∈ m.flat.assigns → LhsOk m.st.rd a.1 := by
-    rw [h.flat]; exact (infoOK hF as hp m.st.rd h.declared).lhs
+    rw [h.fassigns]; exact (infoOK hF as hp m.st.rd h.declared).lhs
   have hcs : ∀ ep c, ep ∈ m.flat.procs → ep.1 = .pos c → m.st.rd.val c = ⟨1, 1, true⟩ := by
     intro ep c hep hc
-    rw [h.flat] at hep
+    rw [h.fprocs] at hep
     rcases List.mem_map.mp hep with ⟨R, hR, e⟩
     subst e
     have : Event.pos (R.pfx ++ "clk") = Event.pos c := hc
     rw [← Event.pos.inj this]
     exact h.ihigh R hR
   obtain ⟨h1, h2, h3, h4, h5, h6, h7⟩ := cycle_rd m hC hl (by rw [h.clk]; exact h.high) hcs
-  refine ⟨by rw [h1, h.flat], h2, ⟨h3.trans h.flat, h4.trans h.clk, ?_, by rw [h5]; exact h.clkdecl, by rw [← h.clk]; exact h6, ?_⟩⟩
+  refine ⟨by rw [h1]; exact cycleA_congr (f := F.flatOf as) h.fassigns h.fprocs _, h2,
+    ⟨by rw [h3]; exact h.fassigns, by rw [h3]; exact h.fprocs, h4.trans h.clk, ?_, by rw [h5]; exact h.clkdecl, by rw [← h.clk]; exact h6, ?_⟩⟩
   · intro x hx k hk; rw [h5]; exact h.declared x hx k hk
   · intro R hR
-    apply h7 (RegI.proc R) _ (by rw [h.flat]; exact List.mem_map.mpr ⟨R, hR, rfl⟩) rfl
+    apply h7 (RegI.proc R) _ (by rw [h.fprocs]; exact List.mem_map.mpr ⟨R, hR, rfl⟩) rfl
 
 theorem ship_op (hF : F.WF) (as : List (LHS × Expr)) (hp : as.Perm F.assigns) (m : Sim) (h : ShipInv F as m)
     (op : Net.Op) (hop : F.OpOK op) :
@@ -108,7 +123,7 @@ theorem ship_op (hF : F.WF) (as : List (LHS × Expr)) (hp : as.Perm F.assigns) (
     have hk := hop.1.1
     have hne1 : F.clk ≠ F.nm k :=
       name_ne hF.names_inj (x := .base) (y := .net k) mem_nodes_base (mem_nodes_net hk) (by simp)
-    refine ⟨hrd, rfl, ⟨h.flat, h.clk, ?_, ?_, ?_, ?_⟩⟩
+    refine ⟨hrd, rfl, ⟨h.fassigns, h.fprocs, h.clk, ?_, ?_, ?_, ?_⟩⟩
     · intro x hx k' hk'
       show (m.st.wr (.whole (F.nm k)) _).rd.info _ = _
       rw [hrd]; exact h.declared x hx k' hk'
@@ -208,9 +223,9 @@ theorem sim1_inv (hF : F.WF) (as : List (LHS × Expr)) : ShipInv F as (F.sim1 as
     intro x hx k hk
     rw [store1_info hF x hx]
     simp [width0, hk]
-  refine ⟨⟨rfl, rfl, hdecl, ⟨?_, ?_⟩, ?_, ?_⟩, ⟨hdecl, ?_, ?_⟩⟩
-  · exact store1_info hF .base mem_nodes_base
-  · intro R hR; exact store1_info hF (.clk R) (mem_nodes_reg hR (mem_regnodes_clk R))
+  refine ⟨⟨rfl, rfl, rfl, hdecl, ?_, ?_, ?_⟩, ⟨hdecl, ?_, ?_⟩⟩
+  · intro R hR
+    exact ⟨store1_info hF .base mem_nodes_base, store1_info hF (.clk R) (mem_nodes_reg hR (mem_regnodes_clk R))⟩
   · exact store1_val hF .base mem_nodes_base _ rfl
   · intro R hR; exact store1_val hF (.clk R) (mem_nodes_reg hR (mem_regnodes_clk R)) _ rfl
   · intro R hR; exact store1_val hF (.rq R) (mem_nodes_reg hR (mem_regnodes_rq R)) _ rfl
